@@ -246,6 +246,13 @@ impl TransportVisitor for VBuf {
             for e in co.borrow_mut().errors.drain(..) {
                 viol("chain-malformed", e);
             }
+            // A posted receive buffer belongs to the device: the driver may not write into it
+            // (the platform layer compares its content at unshare with that at share).
+            for (k, d) in hal::with(|h| std::mem::take(&mut h.faults)) {
+                if k == "buffer-written-while-shared" {
+                    viol("rx-buffer-written-while-posted", d);
+                }
+            }
             obs((posted as u64) << 8 | (in_used as u64) << 4 | held.len() as u64);
             if crate::engine::chooser::has_violation() {
                 break;
@@ -521,6 +528,7 @@ pub fn run(tkind: TKind, raw: bool, depth: usize) {
 
 pub fn run_mode(tkind: TKind, raw: bool, depth: usize, deep: bool) {
     hal::reset();
+    hal::with(|h| h.watch_writes = true);
     // (The legacy set also offers features the driver does not support - checksum offload,
     // mergeable receive buffers, control queue: what counts is what was negotiated.)
     let feats = [F_VERSION_1 | (1 << 5), (1 << 5) | (1 << 16) | 1 | (1 << 15) | (1 << 17), F_VERSION_1 | F_INDIRECT | F_EVENT_IDX];
